@@ -19,6 +19,11 @@ def overlay(o):
             ensures=["truncated_degree == 0 ==> r == Err::<CommitKey, Error>(Error::TruncatedDegreeIsZero)",
                      "truncated_degree > self.powers_of_g@.len() - 1 ==> r == Err::<CommitKey, Error>(Error::TruncatedDegreeTooLarge)",
                      "0 < truncated_degree <= self.powers_of_g@.len() - 1 ==> r.is_ok() && r.unwrap().powers_of_g@ == self.powers_of_g@.subrange(0, (if truncated_degree == 1 { 2int } else { truncated_degree as int }) + 1)"])
+    f = k.fn("CommitKey::check_commit_degree_is_within_bounds")
+    f.verus("capacity.CommitKey::check_commit_degree_is_within_bounds", ret="r",
+            requires=["self.powers_of_g@.len() >= 1"],
+            ensures=["poly_degree > self.powers_of_g@.len() - 1 ==> r == Err::<(), Error>(Error::PolynomialDegreeTooLarge)",
+                     "poly_degree <= self.powers_of_g@.len() - 1 ==> r.is_ok()"])
     s = o.file("src/commitment_scheme/kzg10/srs.rs")
     s.wrap_item("struct", "PublicParameters")
     f = s.fn("PublicParameters::max_degree")
@@ -26,6 +31,14 @@ def overlay(o):
     f.verus("capacity.PublicParameters::max_degree", ret="r", narrow_vis=True,
             requires=["self.commit_key.powers_of_g@.len() >= 1"],
             ensures=["r as int == self.commit_key.powers_of_g@.len() - 1"])
+    f = s.fn("PublicParameters::trim")
+    f.verus("capacity.PublicParameters::trim", ret="r",
+            requires=["self.commit_key.powers_of_g@.len() >= 1", "truncated_degree <= usize::MAX - 6"],
+            ensures=[
+                # trim(n) succeeds exactly when n + 6 <= max_degree; the trimmed key then has n + 7 powers (degree n + 6)
+                "truncated_degree + 6 > self.commit_key.powers_of_g@.len() - 1 ==> r.is_err()",
+                "truncated_degree + 6 <= self.commit_key.powers_of_g@.len() - 1 ==> r.is_ok()"
+                " && r.unwrap().0.powers_of_g@ == self.commit_key.powers_of_g@.subrange(0, truncated_degree + 7)"])
     c = o.file("src/compiler.rs")
     c.wrap_item("struct", "Compiler")
     # `Compiler::CIRCUIT_SIZE_PADDING` cannot be put in verus!{} here: compiler.rs declares `mod verifier;`
@@ -49,4 +62,20 @@ fn v_circuit_size_padding() -> (r: usize) ensures r == 6 { Self::CIRCUIT_SIZE_PA
         lemma_pow2_floor_bracket(available as int, k as nat);
         lemma_usize_shl_one(k);
     }
+}""")
+
+    # ---- direct route: n = npot(c + 6); trim(n)
+    o.spec_module("composer_specs_min")
+    o.spec_module("opaque_pv")
+    f = c.fn("Compiler::preprocess")
+    f.verus("capacity.Compiler::preprocess", ret="r", external_body=True, ensures=["true"])
+    f = c.fn("Compiler::compile_with_composer")
+    f.verus("capacity.Compiler::compile_with_composer", ret="r",
+            requires=["pp.commit_key.powers_of_g@.len() >= 1", "ngates(*composer) <= 0x3fff_ffff_ffff_fff0"],
+            ensures=["spec_npot(ngates(*composer) + 6) + 6 > pp.commit_key.powers_of_g@.len() - 1 ==> r.is_err()"])
+    f.replace("Self::CIRCUIT_SIZE_PADDING", "Self::v_circuit_size_padding()", rule="D4")
+    f.replace("composer.constraints()", "v_constraints(composer)", rule="callee wrapper (Composer::constraints, contract assumed: == number of rows)")
+    f.before("let n =", """proof {
+    assert(is_pow2(0x4000_0000_0000_0000int)) by(compute);
+    lemma_npot_upper(ngates(*composer) + 6, 0x4000_0000_0000_0000int);
 }""")
